@@ -8,6 +8,7 @@ import Driver.LifeD
 import Driver.PendD
 import Driver.ChanD
 import Driver.SessD
+import Driver.SrvLifeD
 /-!
 # `limedriver` — line protocol in front of the executable model
 
@@ -32,6 +33,7 @@ def dispatch (j : Json) : R Json := do
   | "cliwants" => CliD.handleWants j
   | "clijudge" => CliD.handleJudge j
   | "build" => CodecD.handleBuild j
+  | "srvlife" => SrvLifeD.handle j
   | "sessions" => SessD.handle j
   | "chanjudge" => ChanD.handle j
   | "pend" => PendD.handle j
